@@ -93,7 +93,9 @@ Wrap(w, j, body) ==
                             While(Bin("<", Var(nm("ctx_w")), IntL(1)), body \o <<Assign(nm("ctx_w"), IntL(1))>>) >>
       [] w = "then"   -> << If(BoolL(TRUE), body, <<>>) >>
       [] w = "else"   -> << If(BoolL(FALSE), <<Filler>>, body) >>
-      [] w = "arm"    -> << Match(IntL(0), <<Arm(IntL(0), body), Arm(Wild, <<Filler>>)>>) >>
+      \* (the arm ends with the filler so that both arms have the same - unit - type also when the match itself sits in value position,
+      \*  e.g. as the last statement of an enclosing arm)
+      [] w = "arm"    -> << Match(IntL(0), <<Arm(IntL(0), body \o <<Filler>>), Arm(Wild, <<Filler>>)>>) >>
       [] w = "harm"   -> << Handle(Expr(Call("ctx_raises", <<>>)), <<HArm("CtxErr", "ctx_err", body)>>) >>
 
 RECURSIVE WrapAll(_, _, _)
